@@ -92,7 +92,9 @@ def run_streams(pid, P, tier, seed, wdir, root, replay, built, log):
                 sizes[min(len(c) // 200, 20) * 200] += 1
                 if st.get("nontrivial", "any") == "any" or re.search(st["nontrivial"], im):
                     distinct.add(hash(c))
-                if im != mo:
+                if mo.startswith("UNMODELLED"):
+                    dist["model:unmodelled (skipped)"] += 1
+                elif im != mo:
                     nmis += 1
                     if len(res["mismatches"]) < 20:
                         res["mismatches"].append((name, i, "seed=%d %s" % (sh[0], c), im, mo))
